@@ -267,6 +267,9 @@ def run_routes(ctx, p):
             routes['SE3'] = lambda: sm.SE3(T) * P
             routes['homtrans'] = lambda: base.homtrans(T, P)
             routes['h2e.T.e2h'] = lambda: base.h2e(T @ base.e2h(P))
+            # the helpers on one point given as a plain vector / list (1-D in, column out)
+            routes['h2e.T.e2h(1-D)'] = lambda: np.column_stack([np.asarray(base.h2e((T @ base.e2h(P[:, i])).reshape(-1))).reshape(-1) for i in range(P.shape[1])])
+            routes['h2e.T.e2h(list)'] = lambda: np.column_stack([np.asarray(base.h2e((T @ base.e2h(P[:, i].tolist())).reshape(-1).tolist())).reshape(-1) for i in range(P.shape[1])])
             routes['UnitDualQuaternion'] = lambda: np.column_stack([np.asarray(sm.UnitDualQuaternion(sm.SE3(T)) * P[:, i]).reshape(-1) for i in range(P.shape[1])])
             if rot_only:
                 routes['SO3'] = lambda: sm.SO3(R) * P
